@@ -28,6 +28,7 @@ from ..symx import lift, RV, SymReal, SymBool, explore, Inconclusive
 from . import c07
 
 PID = 'C15'
+HISTORY = [3]  # evaluations per history (4 in the thorough tier)
 NROWS = 2
 SYMBOLIC_COLS = ()
 NAME_SETS = [('b_time', 'asc'), ('zeta', 'b time'), ('c=d', 'alpha')]
@@ -200,7 +201,7 @@ def scenario(kind, names, V, sv, dec: Decider, asg_mode=False, Vref=None):
         if kind == 'history':
             b = make_biogeme(names, Vb, db)
             evaluated = []
-            for i in range(3):
+            for i in range(HISTORY[0]):
                 p = point(f'x{i}')
                 b.calculate_likelihood_and_derivatives(np.array(vec(p), dtype=object), scaled=False, hessian=bool(i % 2), bhhh=False)
                 evaluated.append((p, finite_flags[-1]))
@@ -453,13 +454,15 @@ def concrete_run(case):
 
 
 def main(tier):
+    if tier == 'thorough':
+        HISTORY[0] = 4
     items = items_for(tier)
     return run_check(
         PID, tier, items, worker,
         functions_encoded=['BIOGEME.calculate_likelihood_and_derivatives (save_iterations, bestIteration)',
                            'BIOGEME._load_saved_iteration / change_init_values / _save_iterations_file_name',
                            'BIOGEME.estimate (restart, bootstrap loop)', 'Beta.change_init_values'],
-        bounds=dict(history_length=3, free_parameters=2, names=[list(n) for n in NAME_SETS],
+        bounds=dict(history_length=HISTORY[0], free_parameters=2, names=[list(n) for n in NAME_SETS],
                     crash_points='every file-system operation of one evaluation (<= 8), with and without an earlier file',
                     bootstrap_samples=1,
                     outside='longer histories; bit-exact float formatting (string<->float is not symbolically reachable: '
